@@ -91,6 +91,13 @@ pub struct InsCase {
     pub at: u64,
     pub len: u8,
     pub src: Src,
+    /// k > 0: the iterator is a lazy `(0..HUGE[k-1]).map(mint)` instead of `len` ready-made items
+    /// (only for element types of at least 2 bytes, so that the request cannot be allocated)
+    #[serde(default)]
+    pub huge_len: u8,
+    /// Some: the case is a history on a giant array of `()` instead (props/gianthist.rs)
+    #[serde(default)]
+    pub giant: Option<super::gianthist::GiantHist>,
 }
 
 macro_rules! with_src {
@@ -208,6 +215,53 @@ fn run_ins<E: Elem>(k: &InsCase, ctx: &mut Ctx) -> Verdict {
     Ok(())
 }
 
+/// An iterator that announces an enormous length: the request can never be allocated, so the
+/// call must panic (wrong length, or `capacity overflow` on an empty array) and leave a valid array.
+fn run_ins_huge<E: Elem>(k: &InsCase, ctx: &mut Ctx) -> Verdict {
+    let (cols, rows) = (k.cols as usize, k.rows as usize);
+    let (mut t, m) = build::<E>(cols, rows, k.exact_cap);
+    let (c, r) = m.size();
+    let n = HUGE[(k.huge_len as usize - 1) % HUGE.len()].max(1 << 62);
+    let dim = if k.axis == Axis::Row { r } else { c };
+    let at = if k.push { dim } else { k.at as usize };
+    let it = (0..n).map(|i| E::mint((i % 4) as u8));
+    let (axis, push) = (k.axis, k.push);
+    let tref = &mut t;
+    let res = catch(move || match (axis, push) {
+        (Axis::Row, false) => tref.insert_row(at, it),
+        (Axis::Row, true) => tref.push_row(it),
+        (Axis::Col, false) => tref.insert_col(at, it),
+        (Axis::Col, true) => tref.push_col(it),
+    });
+    let name = match (axis, push) {
+        (Axis::Row, false) => "insert_row",
+        (Axis::Row, true) => "push_row",
+        (Axis::Col, false) => "insert_col",
+        (Axis::Col, true) => "push_col",
+    };
+    ensure!(res.is_err(), format!("{}/enormous-iterator-accepted", name), "{}({}, an iterator announcing {} items) on a {}x{} array ({}) returned; size now {:?}", name, at, n, c, r, E::NAME, t.size());
+    shape_invariant(&t, name).map_err(|f| Failure { sig: format!("{}/enormous-iterator/{}", name, f.sig), msg: format!("after the rejected {}({}, an iterator announcing {} items) on a {}x{} array: {}", name, at, n, c, r, f.msg) })?;
+    cells_live_distinct(&t, name).map_err(|f| Failure { sig: format!("{}/enormous-iterator/{}", name, f.sig), msg: f.msg })?;
+    let dd = elem::double_drops();
+    ensure!(dd.is_empty(), format!("{}/enormous-iterator/double-drop", name), "{}: elements dropped twice {:?}", name, dd);
+    drop(t);
+    let dd = elem::double_drops();
+    ensure!(dd.is_empty(), format!("{}/enormous-iterator/double-drop-at-end", name), "{}: elements dropped twice by the final drop {:?}", name, dd);
+    ctx.nt();
+    ctx.class("rejected");
+    ctx.class(if c == 0 { "enormous-iterator-into-empty-array" } else { "enormous-iterator" });
+    ctx.class(E::NAME);
+    Ok(())
+}
+
+fn run_ins_any<E: Elem>(k: &InsCase, ctx: &mut Ctx) -> Verdict {
+    if k.huge_len > 0 && std::mem::size_of::<E>() >= 2 {
+        run_ins_huge::<E>(k, ctx)
+    } else {
+        run_ins::<E>(k, ctx)
+    }
+}
+
 pub struct C06;
 impl Prop for C06 {
     type Case = InsCase;
@@ -219,6 +273,23 @@ impl Prop for C06 {
         "shapes (0..=5)^2, index 0..=dim+1, length 0..=dim+1, 3 element types, exact/spare capacity, 4 iterator kinds, insert+push forms".into()
     }
     fn enumerate(_tier: Tier, emit: &mut dyn FnMut(InsCase)) {
+        super::gianthist::enumerate(super::gianthist::Focus::Insert, &mut |g| emit(ins_giant(g)));
+        // iterators announcing an enormous length, into empty and non-empty arrays
+        for elem in [ElemKind::U32, ElemKind::Tr, ElemKind::U128, ElemKind::B3] {
+            for (cols, rows) in [(0u8, 0u8), (1, 1), (3, 2), (2, 5)] {
+                for exact_cap in [true, false] {
+                    for axis in [Axis::Row, Axis::Col] {
+                        for huge_len in 1..=8u8 {
+                            let dim = if axis == Axis::Row { rows } else { cols } as u64;
+                            for at in [0, dim, dim + 1] {
+                                emit(InsCase { elem, cols, rows, exact_cap, axis, push: false, at, len: 0, src: Src::Vec, huge_len, giant: None });
+                            }
+                            emit(InsCase { elem, cols, rows, exact_cap, axis, push: true, at: 0, len: 0, src: Src::Vec, huge_len, giant: None });
+                        }
+                    }
+                }
+            }
+        }
         for cols in 0u8..=5 {
             for rows in 0u8..=5 {
                 if (cols == 0) != (rows == 0) {
@@ -231,13 +302,13 @@ impl Prop for C06 {
                             for srck in [Src::Vec, Src::Map, Src::Deque, Src::RevVec] {
                                 for len in 0..=other + 1 {
                                     for at in 0..=dim + 1 {
-                                        emit(InsCase { elem, cols, rows, exact_cap, axis, push: false, at: at as u64, len, src: srck });
+                                        emit(InsCase { elem, cols, rows, exact_cap, axis, push: false, at: at as u64, len, src: srck, huge_len: 0, giant: None });
                                     }
-                                    emit(InsCase { elem, cols, rows, exact_cap, axis, push: true, at: 0, len, src: srck });
+                                    emit(InsCase { elem, cols, rows, exact_cap, axis, push: true, at: 0, len, src: srck, huge_len: 0, giant: None });
                                 }
                                 if cols == 0 {
                                     for len in 2..=4u8 {
-                                        emit(InsCase { elem, cols, rows, exact_cap, axis, push: false, at: 0, len, src: srck });
+                                        emit(InsCase { elem, cols, rows, exact_cap, axis, push: false, at: 0, len, src: srck, huge_len: 0, giant: None });
                                     }
                                 }
                             }
@@ -248,21 +319,9 @@ impl Prop for C06 {
         }
     }
     fn strategy(tier: Tier) -> BoxedStrategy<InsCase> {
-        let max = 40u8;
-        let elems = if tier == Tier::Quick { vec![ElemKind::U32, ElemKind::Tr, ElemKind::Tr, ElemKind::Zs, ElemKind::Bx, ElemKind::U128, ElemKind::B3] } else { vec![ElemKind::U32, ElemKind::Tr, ElemKind::Tr, ElemKind::Zs, ElemKind::Bx, ElemKind::Bx, ElemKind::U128, ElemKind::B3] };
-        (proptest::sample::select(elems), prop_oneof![49 => 0..=max, 1 => 0u8..=120], prop_oneof![49 => 0..=max, 1 => 0u8..=120], any::<bool>(), prop_oneof![Just(Axis::Row), Just(Axis::Col)], prop::bool::weighted(0.2), any::<u16>(), prop_oneof![8 => Just(0i8), 1 => Just(1i8), 1 => Just(-1i8), 1 => Just(2i8)], prop_oneof![9 => Just(0u64), 1 => Just(1u64), 1 => Just(2u64), 1 => Just(u64::MAX), 1 => Just(1u64 << 63)], src())
-            .prop_map(|(elem, cols, rows, exact_cap, axis, push, frac, dlen, past, srck)| {
-                let (cols, rows) = if cols == 0 || rows == 0 { (0, 0) } else { (cols, rows) };
-                let (dim, other) = if axis == Axis::Row { (rows, cols) } else { (cols, rows) };
-                let at = match past {
-                    0 => (frac as u64 * (dim as u64 + 1)) >> 16,
-                    1 | 2 => dim as u64 + past,
-                    p => p,
-                };
-                let len = (other as i16 + dlen as i16).max(0) as u8;
-                InsCase { elem, cols, rows, exact_cap, axis, push, at, len, src: srck }
-            })
-            .boxed()
+        let small = c06_small_strategy(tier);
+        let giant = super::gianthist::strategy(super::gianthist::Focus::Insert).prop_map(ins_giant);
+        prop_oneof![24 => small, 1 => giant].boxed()
     }
     fn fuzz_sanitize(k: &mut InsCase) -> bool {
         k.cols %= 41;
@@ -272,24 +331,58 @@ impl Prop for C06 {
             k.rows = 0;
         }
         k.len %= 48;
+        k.huge_len = if k.huge_len < 240 { 0 } else { k.huge_len - 239 };
+        if let Some(g) = &mut k.giant {
+            super::gianthist::sanitize(g);
+        }
         true
     }
     fn random_cases(tier: Tier) -> u64 {
         if tier == Tier::Quick { 300_000 } else { 4_000_000 }
     }
     fn execute(k: &InsCase, ctx: &mut Ctx) -> Verdict {
+        if let Some(g) = &k.giant {
+            return super::gianthist::exec_giant(g, super::gianthist::Focus::Insert, ctx);
+        }
         match k.elem {
-            ElemKind::U32 => run_ins::<u32>(k, ctx),
-            ElemKind::Tr => run_ins::<Tr>(k, ctx),
-            ElemKind::Bx => run_ins::<Bx>(k, ctx),
-            ElemKind::Zs => run_ins::<Zs>(k, ctx),
-            ElemKind::U128 => run_ins::<u128>(k, ctx),
-            ElemKind::B3 => run_ins::<crate::elem::B3>(k, ctx),
+            ElemKind::U32 => run_ins_any::<u32>(k, ctx),
+            ElemKind::Tr => run_ins_any::<Tr>(k, ctx),
+            ElemKind::Bx => run_ins_any::<Bx>(k, ctx),
+            ElemKind::Zs => run_ins_any::<Zs>(k, ctx),
+            ElemKind::U128 => run_ins_any::<u128>(k, ctx),
+            ElemKind::B3 => run_ins_any::<crate::elem::B3>(k, ctx),
         }
     }
     fn essential_classes() -> &'static [&'static str] {
-        &["accepted", "rejected", "exact-capacity", "Zs", "Tr"]
+        &["accepted", "rejected", "exact-capacity", "Zs", "Tr", "giant-unit-grid", "giant/growth-that-cannot-fit-panics", "giant/rejected-call", "giant/applied-insert-or-remove", "enormous-iterator-into-empty-array", "enormous-iterator"]
     }
+}
+
+fn ins_giant(g: super::gianthist::GiantHist) -> InsCase {
+    InsCase { elem: ElemKind::U32, cols: 0, rows: 0, exact_cap: false, axis: Axis::Row, push: false, at: 0, len: 0, src: Src::Vec, huge_len: 0, giant: Some(g) }
+}
+fn rem_giant(g: super::gianthist::GiantHist) -> RemCase {
+    RemCase { elem: ElemKind::U32, cols: 0, rows: 0, exact_cap: false, axis: Axis::Row, pop: false, at: 0, script: vec![], giant: Some(g) }
+}
+
+fn c06_small_strategy(tier: Tier) -> BoxedStrategy<InsCase> {
+    let max = 40u8;
+    let elems = if tier == Tier::Quick { vec![ElemKind::U32, ElemKind::Tr, ElemKind::Tr, ElemKind::Zs, ElemKind::Bx, ElemKind::U128, ElemKind::B3] } else { vec![ElemKind::U32, ElemKind::Tr, ElemKind::Tr, ElemKind::Zs, ElemKind::Bx, ElemKind::Bx, ElemKind::U128, ElemKind::B3] };
+    (proptest::sample::select(elems), prop_oneof![49 => 0..=max, 1 => 0u8..=120], prop_oneof![49 => 0..=max, 1 => 0u8..=120], any::<bool>(), prop_oneof![Just(Axis::Row), Just(Axis::Col)], prop::bool::weighted(0.2), any::<u16>(), prop_oneof![8 => Just(0i8), 1 => Just(1i8), 1 => Just(-1i8), 1 => Just(2i8)], prop_oneof![9 => Just(0u64), 1 => Just(1u64), 1 => Just(2u64), 1 => Just(u64::MAX), 1 => Just(1u64 << 63)], src())
+        .prop_map(|(elem, cols, rows, exact_cap, axis, push, frac, dlen, past, srck)| {
+            let (cols, rows) = if cols == 0 || rows == 0 { (0, 0) } else { (cols, rows) };
+            let (dim, other) = if axis == Axis::Row { (rows, cols) } else { (cols, rows) };
+            let at = match past {
+                0 => (frac as u64 * (dim as u64 + 1)) >> 16,
+                1 | 2 => dim as u64 + past,
+                p => p,
+            };
+            let len = (other as i16 + dlen as i16).max(0) as u8;
+            // one case in 25 announces an enormous length instead
+            let huge_len = if frac % 25 == 7 { 1 + (frac % 8) as u8 } else { 0 };
+            InsCase { elem, cols, rows, exact_cap, axis, push, at, len, src: srck, huge_len, giant: None }
+        })
+        .boxed()
 }
 
 // ---------------------------------------------------------------------------------------------
@@ -305,6 +398,9 @@ pub struct RemCase {
     pub pop: bool,
     pub at: u64,
     pub script: Vec<DStep>,
+    /// Some: the case is a history on a giant array of `()` instead (props/gianthist.rs)
+    #[serde(default)]
+    pub giant: Option<super::gianthist::GiantHist>,
 }
 
 fn drive_drain<E: Elem, D: Iterator<Item = E> + DoubleEndedIterator + ExactSizeIterator>(d: &mut D, script: &[DStep], want: &mut VecDeque<u64>, held: &mut Vec<E>, name: &str) -> Result<(usize, usize), Failure> {
@@ -533,11 +629,12 @@ impl Prop for C07 {
         "shapes (1..=6)^2 plus (0,0), index 0..=dim, all (front,back) splits with front+back <= line length, 3 element types, exact/spare capacity, remove+pop forms".into()
     }
     fn enumerate(_tier: Tier, emit: &mut dyn FnMut(RemCase)) {
+        super::gianthist::enumerate(super::gianthist::Focus::Remove, &mut |g| emit(rem_giant(g)));
         for elem in [ElemKind::U32, ElemKind::Tr, ElemKind::Zs] {
             for exact_cap in [true, false] {
                 for axis in [Axis::Row, Axis::Col] {
-                    emit(RemCase { elem, cols: 0, rows: 0, exact_cap, axis, pop: true, at: 0, script: vec![] });
-                    emit(RemCase { elem, cols: 0, rows: 0, exact_cap, axis, pop: false, at: 0, script: vec![] });
+                    emit(RemCase { elem, cols: 0, rows: 0, exact_cap, axis, pop: true, at: 0, script: vec![], giant: None });
+                    emit(RemCase { elem, cols: 0, rows: 0, exact_cap, axis, pop: false, at: 0, script: vec![], giant: None });
                     for cols in 1u8..=6 {
                         for rows in 1u8..=6 {
                             let (dim, n) = if axis == Axis::Row { (rows, cols) } else { (cols, rows) };
@@ -549,20 +646,20 @@ impl Prop for C07 {
                                     script.extend(std::iter::repeat(DStep::NextBack).take(b as usize));
                                     script.push(DStep::Len);
                                     for at in 0..dim {
-                                        emit(RemCase { elem, cols, rows, exact_cap, axis, pop: false, at: at as u64, script: script.clone() });
+                                        emit(RemCase { elem, cols, rows, exact_cap, axis, pop: false, at: at as u64, script: script.clone(), giant: None });
                                     }
-                                    emit(RemCase { elem, cols, rows, exact_cap, axis, pop: true, at: 0, script: script.clone() });
+                                    emit(RemCase { elem, cols, rows, exact_cap, axis, pop: true, at: 0, script: script.clone(), giant: None });
                                 }
                             }
                             // skipping consumption patterns: the skipped elements must be dropped by the drain
                             for script in [vec![DStep::Nth(1), DStep::Len], vec![DStep::NthBack(1), DStep::Next], vec![DStep::Nth(2), DStep::NthBack(1), DStep::CountRest], vec![DStep::Next, DStep::LastRest], vec![DStep::NthBack(0), DStep::RFoldRest], vec![DStep::Nth(3), DStep::Nth(3)]] {
                                 for at in 0..dim {
-                                    emit(RemCase { elem, cols, rows, exact_cap, axis, pop: false, at: at as u64, script: script.clone() });
+                                    emit(RemCase { elem, cols, rows, exact_cap, axis, pop: false, at: at as u64, script: script.clone(), giant: None });
                                 }
                             }
-                            emit(RemCase { elem, cols, rows, exact_cap, axis, pop: false, at: dim as u64, script: vec![] });
-                            emit(RemCase { elem, cols, rows, exact_cap, axis, pop: false, at: dim as u64 + 1, script: vec![] });
-                            emit(RemCase { elem, cols, rows, exact_cap, axis, pop: false, at: u64::MAX, script: vec![] });
+                            emit(RemCase { elem, cols, rows, exact_cap, axis, pop: false, at: dim as u64, script: vec![], giant: None });
+                            emit(RemCase { elem, cols, rows, exact_cap, axis, pop: false, at: dim as u64 + 1, script: vec![], giant: None });
+                            emit(RemCase { elem, cols, rows, exact_cap, axis, pop: false, at: u64::MAX, script: vec![], giant: None });
                         }
                     }
                 }
@@ -571,7 +668,8 @@ impl Prop for C07 {
     }
     fn strategy(_tier: Tier) -> BoxedStrategy<RemCase> {
         let max = 40u8;
-        (proptest::sample::select(vec![ElemKind::U32, ElemKind::Tr, ElemKind::Tr, ElemKind::Zs, ElemKind::Bx, ElemKind::U128, ElemKind::B3]), prop_oneof![49 => 0..=max, 1 => 0u8..=120], prop_oneof![49 => 0..=max, 1 => 0u8..=120], any::<bool>(), prop_oneof![Just(Axis::Row), Just(Axis::Col)], prop::bool::weighted(0.2), any::<u16>(), prop_oneof![12 => Just(0u64), 1 => Just(1u64), 1 => Just(u64::MAX), 1 => Just(1u64 << 62)], prop_oneof![3 => drain_script(), 1 => prop::collection::vec(super::history::dstep(), 0..60)])
+        let giant = super::gianthist::strategy(super::gianthist::Focus::Remove).prop_map(rem_giant);
+        let small = (proptest::sample::select(vec![ElemKind::U32, ElemKind::Tr, ElemKind::Tr, ElemKind::Zs, ElemKind::Bx, ElemKind::U128, ElemKind::B3]), prop_oneof![49 => 0..=max, 1 => 0u8..=120], prop_oneof![49 => 0..=max, 1 => 0u8..=120], any::<bool>(), prop_oneof![Just(Axis::Row), Just(Axis::Col)], prop::bool::weighted(0.2), any::<u16>(), prop_oneof![12 => Just(0u64), 1 => Just(1u64), 1 => Just(u64::MAX), 1 => Just(1u64 << 62)], prop_oneof![3 => drain_script(), 1 => prop::collection::vec(super::history::dstep(), 0..60)])
             .prop_map(|(elem, cols, rows, exact_cap, axis, pop, frac, past, script)| {
                 let (cols, rows) = if cols == 0 || rows == 0 { (0, 0) } else { (cols, rows) };
                 let dim = if axis == Axis::Row { rows } else { cols } as u64;
@@ -580,9 +678,9 @@ impl Prop for C07 {
                     1 => dim,
                     p => p,
                 };
-                RemCase { elem, cols, rows, exact_cap, axis, pop, at, script }
-            })
-            .boxed()
+                RemCase { elem, cols, rows, exact_cap, axis, pop, at, script, giant: None }
+            });
+        prop_oneof![24 => small, 1 => giant].boxed()
     }
     fn fuzz_sanitize(k: &mut RemCase) -> bool {
         k.cols %= 41;
@@ -591,12 +689,18 @@ impl Prop for C07 {
             k.cols = 0;
             k.rows = 0;
         }
+        if let Some(g) = &mut k.giant {
+            super::gianthist::sanitize(g);
+        }
         true
     }
     fn random_cases(tier: Tier) -> u64 {
         if tier == Tier::Quick { 300_000 } else { 4_000_000 }
     }
     fn execute(k: &RemCase, ctx: &mut Ctx) -> Verdict {
+        if let Some(g) = &k.giant {
+            return super::gianthist::exec_giant(g, super::gianthist::Focus::Remove, ctx);
+        }
         match k.elem {
             ElemKind::U32 => run_rem::<u32>(k, ctx),
             ElemKind::Tr => run_rem::<Tr>(k, ctx),
@@ -607,6 +711,6 @@ impl Prop for C07 {
         }
     }
     fn essential_classes() -> &'static [&'static str] {
-        &["accepted", "rejected", "pop-on-empty", "drain-partial", "drain-both-ends", "last-line", "exact-capacity"]
+        &["accepted", "rejected", "pop-on-empty", "drain-partial", "drain-both-ends", "last-line", "exact-capacity", "giant-unit-grid", "giant/rejected-call", "giant/applied-insert-or-remove"]
     }
 }
